@@ -209,6 +209,15 @@ def run_configs(case, order, rng):
             yield f"{ck}/{style}/keyword", classify(wrapped, [], dict(vals))
             kpos = rng.below(len(names) + 1)
             yield f"{ck}/{style}/mixed", classify(wrapped, [vals[n] for n in names[:kpos]], {n: vals[n] for n in names[kpos:]})
+            if len(names) >= 2 and not case.get("helper_probe") and not case.get("probe"):
+                # the same function with a positional-only section in front (`def fn(x0, /, x1, x2)`), the rest by keyword
+                k = 1 + rng.below(len(names) - 1)
+                scope2 = {"_ret": retval}
+                exec(f"def fn({', '.join(names[:k])}, /, {', '.join(names[k:])}):\n    return _ret", scope2)
+                fn2 = scope2["fn"]
+                fn2.__annotations__ = dict(anns)
+                w2 = jaxtyped(typechecker=tc)(fn2) if style == "new" else jaxtyped(tc(fn2))
+                yield f"{ck}/{style}/positional-only+keyword", classify(w2, [vals[n] for n in names[:k]], {n: vals[n] for n in names[k:]})
         if case["ret"] is None:
             fields = [(n, anns[n]) for n in names]
             try:
@@ -312,6 +321,29 @@ def low_rank_cases():
                 yield {"params": [{"name": "x0", "dims": "a", "shape": [size], "cat": "Shaped", "dtype": "float32"}], "ret": dict(p)}
 
 
+def nonint_symbolic_cases(out, rng):
+    """symbolic axes outside the integer fragment of the model (`n/2`, `(n+m)/2`, `n**0.5`, `n*1.5`): an axis must EQUAL
+    the value of its expression — with n=5 no axis size equals `n/2`, so no consistent assignment exists; the statement
+    is the oracle here"""
+    table = [
+        ("n/2", {"n": 4}, 2, "accept"), ("n/2", {"n": 5}, 2, "reject"), ("n/2", {"n": 5}, 3, "reject"),
+        ("(n+m)/2", {"n": 3, "m": 5}, 4, "accept"), ("(n+m)/2", {"n": 2, "m": 5}, 3, "reject"),
+        ("n**0.5", {"n": 9}, 3, "accept"), ("n**0.5", {"n": 8}, 2, "reject"), ("n*1.5", {"n": 4}, 6, "accept"), ("n*1.5", {"n": 3}, 4, "reject"),
+        ("n/m", {"n": 6, "m": 3}, 2, "accept"), ("n/m", {"n": 7, "m": 3}, 2, "reject"),
+    ]
+    for expr, env, size, want in table:
+        params = [{"name": f"x{i}", "dims": nm, "shape": [v], "cat": "Shaped", "dtype": "float32"} for i, (nm, v) in enumerate(env.items())]
+        sym = {"dims": expr, "shape": [size], "cat": "Shaped", "dtype": "float32"}
+        for as_ret in (False, True):
+            case = {"params": params + ([] if as_ret else [dict(sym, name=f"x{len(params)}")]), "ret": dict(sym) if as_ret else None}
+            verdicts = dict(run_configs(case, case["params"], rng))
+            out.case(("nonint-symbolic", expr, json.dumps(env), size, as_ret), True, sample={"expr": expr, "bound": env, "size": size, "as_return": as_ret, "verdicts": verdicts})
+            bad = {k: v for k, v in verdicts.items() if v != want}
+            if bad:
+                out.violation("verdict:nonint-symbolic:" + want, f"with {env} an axis `{expr}` of size {size} ({'return value' if as_ret else 'last parameter'}): the call must be {want} "
+                              f"(the expression is worth {eval(expr, dict(env))}), but {bad}", {"nonint": expr, "env": env, "size": size})
+
+
 def overlapping_calls(out):
     """two threads inside checked calls at overlapping times, same axis name, different sizes: each call has its own
     consistent assignment, so each must be accepted — and the inconsistent one rejected — whatever the other thread does.
@@ -379,6 +411,7 @@ def run(tier, seed, out, drv, facts):
         for p_ in case["params"] + ([case["ret"]] if case["ret"] else []):
             p_.pop("name", None) if p_ is case["ret"] else None
         run_case(out, drv, facts, case, rng, 1)
+    nonint_symbolic_cases(out, rng)
     for case in probe_cases(rng, 400 if thorough else 40):
         run_case(out, drv, facts, case, rng, 0)
     overlapping_calls(out)
@@ -387,5 +420,8 @@ def run(tier, seed, out, drv, facts):
 def replay(rep, out, drv, facts):
     if "overlap" in rep:
         overlapping_calls(out)
+        return
+    if "nonint" in rep:
+        nonint_symbolic_cases(out, Rng(0, "replay"))
         return
     run_case(out, drv, facts, rep["case"], Rng(0, "replay"), 2)
